@@ -1,12 +1,19 @@
 #!/bin/bash
-# regression of the machinery: apply every kept seeded change to /repo, run the quick check of its property, undo; expect exit 1 + VIOLATION
+# regression of the machinery: for every kept seeded change, make a scratch worktree of /repo's HEAD with the change applied,
+# run the quick check of its property against it (PYTHONPATH precedes the editable install), remove the worktree;
+# expect exit 1 + VIOLATION.  /repo itself is never modified.   usage: tools/run_seeded.sh [name-filter]
 cd /verif
-git -C /repo diff --quiet || { echo "/repo is dirty"; exit 9; }
+mkdir -p /tmp/wt
 for d in seeded/*/; do
   n=$(basename $d); pid=${n%%-*}
   [ -n "$1" ] && [[ "$n" != *$1* ]] && continue
-  git -C /repo apply /verif/${d}patch.diff || { echo "$n: patch does not apply"; continue; }
-  S=$(date +%s); ./check $pid --tier quick > /tmp/seeded_$n.log 2>&1; rc=$?; E=$(date +%s)
-  git -C /repo checkout -- .
-  echo "$n: rc=$rc $((E-S))s $(grep -c '^VIOLATION' /tmp/seeded_$n.log) violations"
+  CW=/tmp/wt/_seed_$n; rm -rf $CW; git -C /repo worktree add -q --detach $CW HEAD || continue
+  if git -C $CW apply /verif/${d}patch.diff; then
+    S=$(date +%s); PYTHONPATH=$CW VERIF_EVIDENCE_DIR=/tmp/wt/_seed_evidence ./check $pid --tier quick > /tmp/seeded_$n.log 2>&1; rc=$?; E=$(date +%s)
+    echo "$n: rc=$rc $((E-S))s $(grep -c '^VIOLATION' /tmp/seeded_$n.log) violations"
+  else
+    echo "$n: patch does not apply"
+  fi
+  git -C /repo worktree remove --force $CW
 done
+rm -rf /tmp/wt/_seed_evidence
